@@ -34,5 +34,5 @@ PROPS = {
             # what lets a later try_unwrap hand the value out while another owner still keeps it
             "unwind": True},
     "C01": {"kani": [{"module": "c01", "profiles": Q_DEV}], "unwind": True},
-    "C16": {"kani": [{"module": "c16", "profiles": Q_DEV_T_BOTH}, {"module": "c16n", "crate": "kani_nostd", "profiles": Q_DEV}], "unwind": ["abort_nostd"]},
+    "C16": {"kani": [{"module": "c16", "profiles": {"quick": ["dev", "nodebug"], "thorough": ["dev", "nodebug"]}}, {"module": "c16n", "crate": "kani_nostd", "profiles": Q_DEV}], "unwind": ["abort_nostd"]},
 }
